@@ -1,6 +1,7 @@
 package main
 
 import (
+	"fmt"
 	"go/token"
 	"go/types"
 	"strings"
@@ -195,12 +196,16 @@ func runC15(c *Ctx) {
 			}
 			if k, _ := fieldKey(st.Addr); k == Q+"upstreamOpt" {
 				if cl, ok := st.Val.(*ssa.Call); ok && staticCallee(cl) == pop && cl.Call.Args[0] == ssa.Value(m) {
-					// on the non-nil path
+					// on the non-nil path, and under no other condition
+					has, extra := false, false
 					for _, g := range guardsOfInstr(in) {
 						if cm, ok := g.asCmp(); ok && cm.X == ssa.Value(m) && isNilConst(cm.Y) && cm.Op == token.NEQ {
-							good = true
+							has = true
+							continue
 						}
+						extra = true
 					}
+					good = has && !extra
 				}
 			}
 		})
@@ -364,10 +369,24 @@ func runC15(c *Ctx) {
 				if mi, ok := r.(*ssa.MakeInterface); ok {
 					for _, r2 := range referrers(mi) {
 						if st, ok := r2.(*ssa.Store); ok {
+							// exactly under `RespOpt() != nil`: no further condition between the decision and the append
+							base := map[string]bool{}
+							for _, g := range guardsOfInstr(ci) {
+								base[guardKey(g)] = true
+							}
+							has, extra := false, false
 							for _, g := range guardsOfInstr(st) {
-								if cm, ok := g.asCmp(); ok && cm.X == ssa.Value(ci) && isNilConst(cm.Y) && cm.Op == token.NEQ {
-									good = true
+								if base[guardKey(g)] {
+									continue
 								}
+								if cm, ok := g.asCmp(); ok && cm.X == ssa.Value(ci) && isNilConst(cm.Y) && cm.Op == token.NEQ {
+									has = true
+									continue
+								}
+								extra = true
+							}
+							if has && !extra {
+								good = true
 							}
 						}
 					}
@@ -454,5 +473,107 @@ func runC15(c *Ctx) {
 	// ---------------------------------------------------------------- R8
 	c.rule("R8", "a copy of a query context has its own query message (and so its own upstream OPT): options a plugin adds in one branch do not appear in the others", 2)
 	checkContextCopyDeep(c)
+
+	// ---------------------------------------------------------------- R9
+	c.rule("R9", "an OPT's header (DO bit, version, extended rcode, UDP size) is written only where the OPT is made (newOpt / setDo); ecs_handler copies an option across the proxy only behind its gates", 5)
+	{
+		allowedHdr := map[string]bool{"newOpt": true, "setDo": true}
+		n := 0
+		for _, f := range p.Funcs {
+			if f.Pkg == nil || !strings.HasPrefix(f.Pkg.Pkg.Path(), modPath) || strings.HasSuffix(f.Pkg.Pkg.Path(), "/tools") {
+				continue
+			}
+			fn := f
+			eachInstr(f, func(in ssa.Instruction) {
+				switch x := in.(type) {
+				case *ssa.Store:
+					fa, ok := x.Addr.(*ssa.FieldAddr)
+					if !ok {
+						return
+					}
+					if k, _ := fieldKey(fa); !strings.HasPrefix(k, "github.com/miekg/dns.RR_Header.") {
+						return
+					}
+					inner, ok := fa.X.(*ssa.FieldAddr)
+					if !ok {
+						return
+					}
+					if k, _ := fieldKey(inner); k != "github.com/miekg/dns.OPT.Hdr" {
+						return
+					}
+					n++
+					c.check(allowedHdr[fn.Name()], "opt-header-write@"+funcName(fn), instrPos(in), "OPT header written where the OPT is made", "an OPT header field is written in "+funcName(fn)+": the DO bit / version / extended rcode the client is shown no longer mirror what NewContext derived from the client's OPT")
+				case *ssa.Call:
+					cn := callName(x)
+					if strings.HasPrefix(cn, "(*github.com/miekg/dns.OPT).Set") {
+						n++
+						c.check(allowedHdr[fn.Name()], "opt-header-write@"+funcName(fn), instrPos(in), "OPT header set where the OPT is made", "an OPT header setter ("+cn+") is called in "+funcName(fn))
+					}
+				}
+			})
+		}
+		if n == 0 {
+			c.anchorMissing("writes of OPT header fields")
+		}
+		// ecs_handler gates
+		const relEcs = "plugin/executable/ecs_handler"
+		if ex := c.fn(relEcs, "ECSHandler", "Exec"); ex != nil {
+			var addCall *ssa.Call
+			eachInstr(ex, func(in ssa.Instruction) {
+				if ci, ok := in.(*ssa.Call); ok && strings.HasSuffix(callName(ci), ".addECS") {
+					addCall = ci
+				}
+			})
+			nW := 0
+			for _, w := range p.whoWrites().byField["github.com/miekg/dns.OPT.Option"] {
+				if w.Fn != ex {
+					continue
+				}
+				nW++
+				gated, coded := false, false
+				for _, g := range guardsOfInstr(w.Instr) {
+					if v, truth := g.asBool(); addCall != nil && v == ssa.Value(addCall) && truth {
+						gated = true
+					}
+					if cm, ok := g.asCmp(); ok && cm.Op == token.EQL {
+						if n, ok := constInt(cm.Y); ok && n == 8 {
+							coded = true
+						}
+					}
+				}
+				c.check(gated && coded, "ecs-back-to-client-gated", instrPos(w.Instr), "the upstream's ECS goes back to the client only when the client's ECS was forwarded, and only the SUBNET option",
+					fmt.Sprintf("the upstream's option is copied into the client's reply without the gate (client ECS was forwarded: %v, option code is SUBNET: %v): upstream EDNS options reach a client that did not send them", gated, coded))
+			}
+			if nW == 0 {
+				c.anchorMissing("append to RespOpt().Option in ECSHandler.Exec")
+			}
+		}
+		if ae := c.fn(relEcs, "ECSHandler", "addECS"); ae != nil {
+			// `return true` (client ECS forwarded) only after appending the client's option under args.Forward
+			good, nTrue := true, 0
+			for _, r := range returnsOf(ae) {
+				b, isB := constBool(returnedValues(r)[0])
+				if !isB || !b {
+					if !isB {
+						good = false
+					}
+					continue
+				}
+				nTrue++
+				fw := false
+				for _, g := range guardsOfInstr(r) {
+					if v, truth := g.asBool(); truth {
+						if k, _ := loadedField(v); strings.HasSuffix(k, ".Args.Forward") {
+							fw = true
+						}
+					}
+				}
+				if !fw {
+					good = false
+				}
+			}
+			c.check(good && nTrue == 1, "ecs-forwarded-flag", ae.Pos(), "addECS reports 'forwarded' only on the path that copied the client's option under args.Forward", "addECS can report that the client's ECS was forwarded on a path that is not gated by the forward option")
+		}
+	}
 
 }
